@@ -242,12 +242,134 @@ Theorem C06_later_block_expiry : forall T now gr l s req rendering b2,
 Proof. exact later_block_expiry_lemma. Qed.
 Print Assumptions C06_later_block_expiry.
 
-(* ---- the scenario of the former finding C06:block2-stale-rendering (corpus/C06/stale.json): after a
-   block-0 request that is answered whole, a NUM>0 request gets 4.08 and nothing is kept *)
+(* concrete requests / renderings used by the Examples below *)
 Definition get_req (b2 : blockopt) (id : Z) : msg :=
   {| m_remote := 0; m_mps := 1124; m_mbse := 6; m_code := 1; m_opts := []; m_block1 := None; m_block2 := Some b2;
      m_payload := []; m_id := id |}.
 Definition rend (seed : Z) : resp := {| p_code := 69; p_block1 := None; p_block2 := None; p_payload := mk_body seed 100 |}.
+Definition put_req (b1 : blockopt) (pl : list Z) (id : Z) : msg :=
+  {| m_remote := 0; m_mps := 1124; m_mbse := 6; m_code := 3; m_opts := [(15, [97; 61; 49]); (60, [id])];
+     m_block1 := Some b1; m_block2 := None; m_payload := pl; m_id := id |}.
+
+(* ---- round 5 (clause audit) ------------------------------------------------------------------------------------ *)
+(* the decision tables at HISTORY level: for every resource of every reachable server (any event history), the answer to the
+   next request; [step] of a request is [render_to_pipe] on that resource at the server's time *)
+Theorem C06_step_is_render_to_pipe : forall T sv i req rendering,
+  step T sv (Request i req rendering) =
+  let '(s', calls, res) := render_to_pipe T (now sv) (nth i (resources sv) rstate_empty) req rendering in
+  ({| now := now sv; resources := set_nth i s' (resources sv) |}, ORequest calls res (fst (rsizes s')) (snd (rsizes s'))).
+Proof. exact step_request_eq. Qed.
+Print Assumptions C06_step_is_render_to_pipe.
+Theorem C06_reachable_block1_table : forall T sv gh i req rendering b, reachable T sv gh -> m_block1 req = Some b ->
+  let s := nth i (resources sv) rstate_empty in
+  let k := extract_block_key req in
+  let '(s', calls, res) := render_to_pipe T (now sv) s req rendering in
+  (b_more b = true -> b_num b = 0 -> calls = [] /\ res = continue_resp b /\ kget k (block1 s') = Some req) /\
+  (b_num b <> 0 -> kget k (block1 s) = None -> calls = [] /\ res = incomplete_resp /\ s' = s) /\
+  (forall asm, b_num b <> 0 -> kget k (block1 s) = Some asm ->
+     (size_ok b req = false -> calls = [] /\ res = bad_request_resp txt_size_mismatch /\ kget k (block1 s') = Some asm) /\
+     (size_ok b req = true -> b_start b <> blen (m_payload asm) -> calls = [] /\ res = incomplete_resp /\ kget k (block1 s') = Some asm) /\
+     (size_ok b req = true -> b_start b = blen (m_payload asm) -> b_more b = true ->
+        calls = [] /\ res = continue_resp b /\ kget k (block1 s') = Some (appended asm req b))) /\
+  (forall k', k' <> k -> kget k' (block1 s') = kget k' (block1 s)).
+Proof. exact reachable_block1_table. Qed.
+Print Assumptions C06_reachable_block1_table.
+Theorem C06_reachable_block2_table : forall T sv gh i req rendering b2, reachable T sv gh ->
+  m_block1 req = None -> m_block2 req = Some b2 -> b_num b2 <> 0 ->
+  let s := nth i (resources sv) rstate_empty in
+  let k := extract_block_key req in
+  let '(s', calls, res) := render_to_pipe T (now sv) s req rendering in
+  calls = [] /\
+  (res = incomplete_resp \/
+   exists Rn, g_latest gh i k = Some Rn /\
+     res = if b2_start (b_szx b2) (b_num b2) >=? blen (p_payload Rn) then bad_request_resp txt_out_of_bounds
+           else slice_resp Rn (b_num b2) (b_szx b2) (m_mps req)).
+Proof. exact reachable_block2_table. Qed.
+Print Assumptions C06_reachable_block2_table.
+Theorem C06_reachable_handler_bodies : forall T sv gh i req rendering, reachable T sv gh -> wf_req req ->
+  forall c, In c (snd (fst (render_to_pipe T (now sv) (nth i (resources sv) rstate_empty) req rendering))) ->
+  match m_block1 req with
+  | None => c = req
+  | Some b =>
+    b_more b = false /\
+    exists bs, ghost1_step (g_asm gh i) req (extract_block_key req) = Some bs /\ chain (extract_block_key req) bs /\
+               last bs req = req /\ assembled_from c bs
+  end.
+Proof. exact reachable_handler_bodies. Qed.
+Print Assumptions C06_reachable_handler_bodies.
+
+(* no answer of ANY 5.xx class unless a handler rendering has one (C06_no_5xx is the special case 5.00), and where the code of
+   an answer comes from *)
+Theorem C06_no_5xx_any : forall T n es, Forall wf_event es -> Forall ev_class_ok es ->
+  Forall out_class_ok (snd (run T (server_init n) es)).
+Proof.
+  intros T n es F C. apply (run_no_5xx_any T es (server_init n) ghost_init F C (server_inv_init n)).
+  intros i k R H. discriminate.
+Qed.
+Print Assumptions C06_no_5xx_any.
+Theorem C06_answer_code_origin : forall ga' gr req rendering calls res, resp_ok ga' gr req rendering calls res ->
+  In (p_code res) [CONTINUE; BAD_REQUEST; REQUEST_ENTITY_INCOMPLETE] \/ p_code res = p_code rendering \/
+  exists k Rn, gr k = Some Rn /\ p_code res = p_code Rn.
+Proof. exact resp_ok_code. Qed.
+Print Assumptions C06_answer_code_origin.
+
+(* a request stopped by the spool (2.31 / 4.00 / 4.08) leaves the rendering cache untouched and invokes no handler *)
+Theorem C06_spool_error_keeps_cache : forall T now s req rendering sp e,
+  feed_and_take T now (block1 s) req = (sp, RRaise e) ->
+  render_to_pipe T now s req rendering = ({| block1 := sp; block2 := block2 s |}, [], error_to_message e).
+Proof. exact spool_error_keeps_cache. Qed.
+Print Assumptions C06_spool_error_keeps_cache.
+
+(* T of the model is the translated source constant; the M=1 length check is the library's is_valid_for_payload_size *)
+Theorem C06_T_is_source :
+  QArith_base.Qeq (QArith_base.inject_Z MAX_TRANSMIT_WAIT_us)
+      (QArith_base.Qmult (c03_constants.MAX_TRANSMIT_WAIT c03_constants.default_transport_tuning) (QArith_base.inject_Z 1000000)).
+Proof. exact T_is_source. Qed.
+Print Assumptions C06_T_is_source.
+Theorem C06_size_check_M1_is_source : forall b r, b_more b = true ->
+  bt_is_valid_for_payload_size (b_num b) (b_more b) (b_szx b) (blen (m_payload r)) = Ok (size_ok b r).
+Proof. exact size_ok_M1_is_valid. Qed.
+Print Assumptions C06_size_check_M1_is_source.
+
+(* refuted (finding C06:final-block-oversize-accepted): "a continuation whose payload length contradicts its block size -> 4.00"
+   holds for M=1 only.  A FINAL block of 40 bytes with block size 16 is rejected by the library's own predicate but accepted by
+   _append_request_block: the handler sees 56 bytes *)
+Example C06_final_block_oversize_refuted :
+  let es := [Request 0 (put_req {| b_num := 0; b_more := true; b_szx := 0 |} (mk_body 0 16) 1) (rend 0);
+             Request 0 (put_req {| b_num := 1; b_more := false; b_szx := 0 |} (mk_body 0 40) 2) (rend 0)] in
+  bt_is_valid_for_payload_size 1 false 0 40 = Ok false /\
+  match snd (run MAX_TRANSMIT_WAIT_us (server_init 1) es) with
+  | [ORequest [] r1 _ _; ORequest [c] r2 _ _] => p_code r1 = CONTINUE /\ p_code r2 = 69 /\ blen (m_payload c) = 56
+  | _ => False
+  end.
+Proof. vm_compute. repeat split. Qed.
+
+(* overlapping handler schedules (Model sstep/srun, requests without Block1).  With a handler that returns at once the
+   schedule model IS the atomic model ... *)
+Theorem C06_atomic_schedule_is_request : forall T st id req rendering, m_block1 req = None -> is_first req = true ->
+  let '(st1, o1) := sstep T st (SBegin id req) in
+  let '(st2, o2) := sstep T st1 (SFinish id rendering) in
+  let '(s', calls, res) := render_to_pipe T (s_now st) (s_res st) req rendering in
+  o1 = SOBegin calls /\ o2 = SOFinish (Some res) (snd (rsizes s')) /\ s_res st2 = s' /\ s_now st2 = s_now st.
+Proof. exact atomic_schedule_is_request. Qed.
+Print Assumptions C06_atomic_schedule_is_request.
+(* ... but refuted under overlap (finding C06:overlap-older-rendering-served): request 1 starts rendering, request 2 of the same
+   key starts and returns, then request 1 returns and overwrites the stored rendering; block 1 is then a slice of the rendering
+   made for the EARLIER block-0 request *)
+Example C06_overlapping_renderings_refuted :
+  let q := get_req {| b_num := 0; b_more := false; b_szx := 0 |} in
+  let es := [SBegin 1 (q 1); SBegin 2 (q 2); SFinish 2 (rend 2); SFinish 1 (rend 1);
+             SLater (get_req {| b_num := 1; b_more := false; b_szx := 0 |} 3)] in
+  match srun MAX_TRANSMIT_WAIT_us sstate_init es with
+  | [SOBegin [_]; SOBegin [_]; SOFinish (Some r2) 1; SOFinish (Some r1) 1; SOLater [] r3 1] =>
+      p_payload r2 = bslice (mk_body 2 100) 0 16 /\ p_payload r1 = bslice (mk_body 1 100) 0 16 /\
+      p_payload r3 = bslice (mk_body 1 100) 16 32 /\ p_payload r3 <> bslice (mk_body 2 100) 16 32
+  | _ => False
+  end.
+Proof. vm_compute. repeat split. discriminate. Qed.
+
+(* ---- the scenario of the former finding C06:block2-stale-rendering (corpus/C06/stale.json): after a
+   block-0 request that is answered whole, a NUM>0 request gets 4.08 and nothing is kept *)
 Example C06_block2_after_whole_answer :
   let es := [Request 0 (get_req {| b_num := 0; b_more := false; b_szx := 0 |} 1) (rend 1);
              Request 0 (get_req {| b_num := 2; b_more := false; b_szx := 0 |} 2) (rend 2);
@@ -261,9 +383,6 @@ Example C06_block2_after_whole_answer :
 Proof. vm_compute. repeat split. Qed.
 
 (* ---- non-vacuity *)
-Definition put_req (b1 : blockopt) (pl : list Z) (id : Z) : msg :=
-  {| m_remote := 0; m_mps := 1124; m_mbse := 6; m_code := 3; m_opts := [(15, [97; 61; 49]); (60, [id])];
-     m_block1 := Some b1; m_block2 := None; m_payload := pl; m_id := id |}.
 Example C06_wf_nonvacuous : wf_req (put_req {| b_num := 0; b_more := true; b_szx := 0 |} (mk_body 0 16) 1) /\
   reachable 93 (server_init 2) ghost_init /\ server_inv ghost_init (server_init 2).
 Proof.
